@@ -1724,9 +1724,15 @@ fn main() {
     let mut drv = Driver::spawn(&args.driver);
     let mut rep = Report::new(
         "C19",
-        "L1: random templates over the reference grammar (10% from a malformed stream) x random capture \
-         environments; L2: random patterns with capture groups x templates x 1-4 line inputs, LF/CRLF, -o. \
-         Non-trivial: L1 expansion differs from the template; L2 input has both a matching and a non-matching line. \
+        "L1: random templates over the reference grammar (10% from a malformed stream) x random capture environments. \
+         L2: random patterns with capture groups and look-arounds (\\b \\B ^ $ \\A \\z (?-m:^) (?-m:$)) x templates x 1-4 line \
+         inputs, LF/CRLF/NUL terminators, whole line / -o / per-match, -n/--column: real Standard printer vs model vs \
+         regex replace_all per line. L2c: the same behind the real searcher with -A/-B context, --passthru and -v (matched \
+         and context callbacks), plus the colour relation (escapes stripped = plain). L4: the L2c cases through the real \
+         rg binary (flags -> HiArgs -> builders; -n/-N, --column, --vimgrep, -o, --crlf, --mmap/--no-mmap). L3: multi-line \
+         (-U) blocks incl. a padded shadow run for the 128-byte look-ahead cut and option variants (path, --column, -b, -o, \
+         --vimgrep). Non-trivial: L1 expansion differs from the template; L2 input has both a matching and a \
+         non-matching line; L2c/L4 has both a replaced and an unaltered printed line; L3 block spans lines. \
          Distinct by case text.",
     );
     let rg_path = args.rg.clone();
